@@ -336,7 +336,8 @@ def r14_5(ctx):
     must = bool(inc_blocks) and not any(rb in reach_consistent(cb, ve["Timeout"], {pk: "Timeout"}, removed_blocks=inc_blocks) for rb in cb.return_blocks())
     once = all(not any(b2 in cb.reachable(s_) for s_ in cb.succ(b1) for b2 in inc_blocks) for b1 in inc_blocks) and \
         all(len([c for c in t_inc if c[0] == b]) == 1 for b in inc_blocks)
-    ctx.check(must and once and all(c[2] == "count_failed" for c in t_inc), "timeout-counted", cb.where(),
+    roles = counter_roles(prog)
+    ctx.check(must and once and all(roles.get(c[2]) == "total_failed" for c in t_inc), "timeout-counted", cb.where(),
               "the timed-out test case increments count_failed exactly once",
               "the Timeout edge increments %s (on every path: %s, at most once: %s)" % ([c[2] for c in t_inc], must, once))
     # remainder becomes Skipped: closure constructing TestCaseError::Skipped fed by skip(outputs.len())
@@ -381,8 +382,9 @@ def _counter_incs(body):
     return out
 
 
-def _counter_writes(body, prefix="count_"):
-    """(bb, si, name) of every store into a place whose user-level name starts with `prefix` (any amount)"""
+def _counter_writes(body, names=None, prefix="count_"):
+    """(bb, si, name) of every store into one of the counter places `names` (by role, see counter_roles); without `names`
+    the historic prefix convention is used"""
     out = []
     for bi, b in enumerate(body.blocks):
         if b["cleanup"]:
@@ -390,9 +392,89 @@ def _counter_writes(body, prefix="count_"):
         for si, st in enumerate(b["stmts"]):
             if st["k"] == "assign":
                 nm = body.place_name(st["lhs"])
-                if nm.startswith(prefix):
+                if (names is not None and nm in names) or (names is None and nm.startswith(prefix)):
                     out.append((bi, si, nm))
     return out
+
+
+def counter_roles(prog):
+    """{counter name: role} for the counters of the test command, bound by what they are used for (never by their names):
+       total_failed   - the counter whose `> 0` test guards Err(ValidationFailedError)
+       doc_failed / doc_success - incremented on the Err / Ok side of the validate() result in the per-pair loop
+       total_success  - receives `+= doc_success` (total_failed must receive `+= doc_failed`)
+       total_skipped  - the only counter incremented in the ExecutionError::Skipped arm
+       total_detached - incremented in the per-pair loop on the path that pushes no outcome"""
+    from ..cfgq import aggregates, bool_edges, cond_tree, explore, place_key, switches, variant_edges
+    run = prog.fn("test::Args::run")
+    o = Origins(run)
+    roles = {}
+    incs = _counter_incs(run)
+    # total_failed
+    vsites = [bb for bb, si, rv in aggregates(run, "ValidationFailedError")]
+    for sb, st in switches(run):
+        be = bool_edges(run, sb)
+        if be is None or not vsites:
+            continue
+        tree = cond_tree(run, sb, o)
+        if tree.kind == "bin" and tree.a in ("Gt", "Ne", "Ge", "Lt") and any(k.kind == "const" for k in tree.kids):
+            if any((vb in run.reachable(e) and vb not in run.reachable(0, removed_edges=[(sb, e)])) for e in be for vb in vsites):
+                for bi in [sb]:
+                    for st2 in run.blocks[bi]["stmts"]:
+                        if st2["k"] == "assign" and st2["rv"]["k"] == "bin":
+                            for side in ("a", "b"):
+                                pl = st2["rv"][side].get("copy") or st2["rv"][side].get("move")
+                                if pl is not None:
+                                    roles[run.place_name(pl)] = "total_failed"
+    # doc_failed / doc_success: hypothesis on the validate() result
+    vcalls = [(bb, t) for bb, t in run.calls() if (callee_name(t) or "").endswith("TestCase::validate")]
+    if vcalls:
+        vb, vt = vcalls[0]
+        pk = place_key(vt["dest"])
+        is_err = [bb for bb, t in run.calls() if mname(t) == "Result::is_err"]
+        is_ok = [bb for bb, t in run.calls() if mname(t) == "Result::is_ok"]
+        back = run.back_edges()
+
+        def side(variant):
+            assume = {b_: (variant == "Err") for b_ in is_err}
+            assume.update({b_: (variant == "Ok") for b_ in is_ok})
+            return set(explore(run, vt["target"], {pk: variant}, removed_edges=back, assume=assume).keys())
+        on_err, on_ok = side("Err"), side("Ok")
+        for bb, si, nm in incs:
+            if bb in on_err and bb not in on_ok:
+                roles.setdefault(nm, "doc_failed")
+            elif bb in on_ok and bb not in on_err:
+                roles.setdefault(nm, "doc_success")
+    # totals: X += doc_success
+    inv = {v: k for k, v in roles.items()}
+    for bi, blk in enumerate(run.blocks):
+        for st in blk["stmts"]:
+            if st["k"] == "assign" and st["rv"]["k"] == "bin" and st["rv"]["op"] in ("AddWithOverflow", "Add"):
+                a = st["rv"]["a"].get("copy") or st["rv"]["a"].get("move")
+                b = st["rv"]["b"].get("copy") or st["rv"]["b"].get("move")
+                if a and b and run.place_name(b) == inv.get("doc_success"):
+                    roles.setdefault(run.place_name(a), "total_success")
+    # total_skipped: the counter of the Skipped arm
+    for sb, st in switches(run):
+        ve, rv = variant_edges(run, sb)
+        if ve is not None and strip_mods(rv["ty"]) == "ExecutionError" and "Skipped" in ve:
+            pk2 = place_key(rv["place"])
+            back = run.back_edges()
+            reg = set(explore(run, ve["Skipped"], {pk2: "Skipped"}, removed_edges=back).keys())
+            others = set()
+            for v, tg in ve.items():
+                if v != "Skipped":
+                    others |= set(explore(run, tg, {pk2: v}, removed_edges=back).keys())
+            names = {nm for bb, si, nm in incs if bb in reg - others}
+            if len(names) == 1:
+                roles.setdefault(names.pop(), "total_skipped")
+    # total_detached: the remaining counter incremented inside the per-pair loop
+    heads = [bb for bb, t in run.calls() if mname(t) == "Iterator::next" and "Zip<" in (t.get("self_ty") or "")]
+    if len(heads) == 1:
+        body_blocks = set(run.reachable(run.blocks[heads[0]]["term"]["target"], removed_edges=run.back_edges()))
+        rest = {nm for bb, si, nm in incs if bb in body_blocks and nm not in roles}
+        if len(rest) == 1:
+            roles[rest.pop()] = "total_detached"
+    return roles
 
 
 def _bin_left_place(body, st):
